@@ -9,21 +9,22 @@ import sys
 
 HERE = os.path.dirname(os.path.dirname(os.path.abspath(__file__)))
 REQ = {
-    "C04": {"faults": ["memo_evict", "rejected_insert"],
+    "C04": {"faults": ["memo_evict", "rejected_insert", "partially_rejected_insert"],
             "probes": ["insert_on_existing_knot", "insert_on_knot_mult_ge_2", "evalpts_checked_after_modification", "reject_after_cache_warm",
                        "unnormalised_object", "object:volume", "object:surface:rational", "object:curve"]},
     "C06": {"faults": ["memo_evict"],
             "probes": ["removal_after_unrelated_operation", "removal_count_ge_2", "partial_removal", "full_restoration_checked",
                        "refine_as_source_of_removable_knots", "unnormalised_object", "object:volume:rational"]},
     "C09": {"faults": ["rejected_setter"],
-            "probes": ["setter_of_other_view_after_read", "getter_list_fed_back_into_setter", "conversion_checked", "grid_read_checked"]},
+            "probes": ["setter_of_other_view_after_read", "getter_list_fed_back_into_setter", "conversion_checked", "grid_read_checked",
+                       "nurbs_to_bspline_on_weights_le_1"]},
     "C12": {"faults": ["memo_evict", "rejected_edit:bad_delta", "rejected_edit:bad_knots", "rejected_edit:bad_point", "rejected_edit:bad_insert"],
-            "probes": ["read_after_edit_of_warm_object", "rejected_edit_while_cache_warm", "copy_created", "element_edit_while_container_cache_warm",
+            "probes": ["read_after_edit_of_warm_object", "rejected_edit_while_cache_warm", "copy_created", "element_edit_while_container_cache_warm", "container_deepcopy_checked", "container_tessellate_on_simulated_pool",
                        "container_read_after_edit_of_warm_container"]},
     "C14": {"faults": ["open_fails", "write_fails", "close_fails", "read_fails", "crash"],
             "probes": ["restart", "restart_after_crash", "restart_with_ge_2_acknowledged_files", "overwrite_after_failed_export",
                        "import_after_restart_or_overwrite_after_failure", "directory_import_checked", "listdir_shuffled", "independent_reader_checks"]},
-    "C15": {"faults": ["worker_raises", "open_fails", "write_fails", "close_fails"],
+    "C15": {"faults": ["worker_raises", "open_fails", "write_fails", "close_fails", "failing_tessellate_call"],
             "probes": ["mesh_observed_after_intervening_change", "vertex_spacing_gt_1", "container_mesh_checked", "quad_checked",
                        "mesh_file_checked:obj", "mesh_file_checked:off", "mesh_file_checked:stl_ascii", "mesh_file_checked:stl_bin",
                        "trim_cell_inside_checked", "trim_cell_outside_checked", "container_tessellate_hit_by_worker_fault", "mesh_export_hit_by_fault"]},
